@@ -892,7 +892,10 @@ func (c *wsConn) handleWsConn(ctx context.Context) {
 		case <-c.pongs:
 			action = "pong"
 
+			// c.conn is replaced under writeLk by the reconnect goroutine
+			c.writeLk.Lock()
 			c.resetReadDeadline()
+			c.writeLk.Unlock()
 		case <-timeoutCh:
 			if c.pingInterval == 0 {
 				// pings not running, this is perfectly normal
@@ -903,8 +906,9 @@ func (c *wsConn) handleWsConn(ctx context.Context) {
 			if err := c.conn.Close(); err != nil {
 				log.Warnw("timed-out websocket close error", "error", err)
 			}
+			remote := c.conn.RemoteAddr()
 			c.writeLk.Unlock()
-			log.Errorw("Connection timeout", "remote", c.conn.RemoteAddr(), "lastAction", action)
+			log.Errorw("Connection timeout", "remote", remote, "lastAction", action)
 			// The server side does not perform the reconnect operation, so need to exit
 			if c.connFactory == nil {
 				return
